@@ -34,6 +34,10 @@ def declare(world):
     # --- records ---
     S.declare_record('Thm', 'kernel.thm.Thm', [('prop', 'Term'), ('hyps', ('set', 'Term'))])
     S.declare_record('ItemID', 'kernel.proof.ItemID', [('id', ('seq', 'int'))])
+    S.declare_record('Inst', 'kernel.term.Inst', [('data', ('map', 'str', 'Term')),
+                                                  ('tyinst', ('map', 'str', 'Type')),
+                                                  ('var_inst', ('map', 'str', 'Term')),
+                                                  ('abs_name_inst', ('map', 'str', 'str'))])
     world.struct_eq_kinds.update(['Term', 'Type'])     # justified by the __eq__ contracts (C03-O1)
     install_overrides(world)
 
@@ -64,9 +68,42 @@ def declare_nested(S, spec):
 
 
 def install_overrides(world):
+    from pyvc.values import MapV, ObjV, DictV, OutOfReach
+
     def noop(R, args, kwargs):
         return None
     world.overrides['util.typecheck.checkinstance'] = noop
+
+    # UserDict subclasses: TyInst is a finite map str -> Type; Inst is a record of four maps whose
+    # dict interface (in / [] / keys / items) is that of its `data` map.
+    def fill(R, m, args, kwargs):
+        if args:
+            src = args[0]
+            if isinstance(src, ObjV) and 'data' in src.fields:
+                src = src.fields['data']
+            if isinstance(src, MapV):
+                m.arr = src.arr
+            elif isinstance(src, DictV):
+                for k, v in src.items.items():
+                    R.map_set(m, k, v)
+            else:
+                raise OutOfReach('UserDict initialised from %r' % (src,))
+        for k, v in kwargs.items():
+            R.map_set(m, k, v)
+        return m
+
+    def mk_tyinst(R, args, kwargs):
+        return fill(R, R.map_empty('str', 'Type'), args, kwargs)
+
+    def mk_inst(R, args, kwargs):
+        ci = R.class_info('kernel.term.Inst')
+        return ObjV(ci, {'data': fill(R, R.map_empty('str', 'Term'), args, kwargs),
+                         'tyinst': R.map_empty('str', 'Type'),
+                         'var_inst': R.map_empty('str', 'Term'),
+                         'abs_name_inst': R.map_empty('str', 'str')})
+
+    world.overrides['kernel.type.TyInst'] = mk_tyinst
+    world.overrides['kernel.term.Inst'] = mk_inst
 
 
 def conformance(world):
